@@ -109,6 +109,13 @@ func payloadToVal(k string, p lorawan.MACCommandPayload) M {
 	info := cmdTab[k]
 	rv := reflect.ValueOf(p).Elem()
 	out := M{}
+	// a payload whose Go type is not the one this command carries (the library handed out a wrong or stale payload) has no
+	// such fields: project it as the zero value of the expected shape plus a marker, so that the trace specification sees a
+	// value that differs from every specified one instead of the harness failing
+	if want := reflect.TypeOf(info.mk()); reflect.TypeOf(p) != want {
+		out["wrongtype"] = reflect.TypeOf(p).String()
+		rv = reflect.ValueOf(info.mk()).Elem()
+	}
 	for _, f := range info.fields {
 		fv := fieldByPath(rv, f.path)
 		switch f.kind {
